@@ -499,6 +499,12 @@ def oracle_roundtrip(dump):
     if not (d == c):
         what = describe_difference(ct.dump_circuit(d), dump)
         return f'roundtrip-differs: from_bench_string(format_circuit(c)) != c: {what}'
+    # Circuit.__eq__ ignores the users index: the parsed circuit must also BE the circuit (C02 well-formedness:
+    # users = inverse operand multiset, both topological orders complete, copy works)
+    from . import wforacle
+    wf = wforacle.wf_violation(d) or wforacle.copy_violation(d)
+    if wf:
+        return f'parsed-not-well-formed: {wf}'
     if '\r' in text:
         return None         # a text-mode read turns "\r" into a newline: outside the file statement (labels_no_cr)
     try:
@@ -573,6 +579,10 @@ def oracle_layout(items, fin):
     except Exception as e:  # noqa: BLE001
         return f'layout-raises: a well-formed text is rejected with {type(e).__name__}: {e}'
     got = ct.dump_circuit(c)
+    from . import wforacle
+    wf = wforacle.wf_violation(c)
+    if wf:
+        return f'parsed-not-well-formed: {wf}'
     if dict_of(got) != dict_of(net) or got['inputs'] != net['inputs'] or got['outputs'] != net['outputs']:
         return 'layout-differs: parsed circuit is not the netlist of the text: ' + describe_difference(got, net)
     tt = truth_table(net)
